@@ -111,6 +111,8 @@ def gen_case(rng, model_key=None, loss=None, force=None):
         k = int(rng.integers(1, nS + 1))
         ts = [md["states"][i] for i in rng.permutation(nS)[:k]]
     n = int(rng.integers(4, 8))
+    if nobs == 1 and rng.random() < 0.1:
+        n = 1                 # a single observation of a single state
     t = np.round(np.linspace(md["T"] / n, md["T"], n) + rng.uniform(-0.05, 0.05, n), 3)
     t0, t_int = 0.0, False
     if rng.random() < 0.25:
@@ -144,7 +146,8 @@ def gen_case(rng, model_key=None, loss=None, force=None):
             weights = np.round(rng.uniform(0.3, 2.5, size=nobs), 3).tolist() if nobs > 1 else round(float(rng.uniform(0.3, 2.5)), 3)
         else:
             weights = np.round(rng.uniform(0.3, 2.5, size=(n, nobs)), 3)
-            weights[int(rng.integers(0, n)), int(rng.integers(0, nobs))] = 0.0      # a masked observation
+            if n * nobs > 1:
+                weights[int(rng.integers(0, n)), int(rng.integers(0, nobs))] = 0.0      # a masked observation
             weights = weights.tolist()
     spread = None
     if loss in ("Normal", "Gamma", "NegBinom"):
